@@ -85,8 +85,8 @@ theorem NodesOk.fresh {c : Cell R} (h : NodesOk c) : Fresh (abs c) (newSlot c) :
     have := h.live g t _ hg hn
     rw [h.newSlot_unused] at this; cases this
 
-theorem NodesOk.freeHeadOk {c : Cell R} (h : NodesOk c) : freeHeadOk c = true := by
-  unfold freeHeadOk
+theorem NodesOk.headOk {c : Cell R} (h : NodesOk c) : Remesh.freeHeadOk c = true := by
+  unfold Remesh.freeHeadOk
   cases hf : c.freeNodes with
   | nil => rfl
   | cons i rest =>
